@@ -29,6 +29,8 @@ type c20Case struct {
 	Insc    bool     `json:"ordinal_is_inscription"`
 	// OwnKeys: every funding UTXO is locked to a key of its own (and carries that key's unlocker)
 	OwnKeys bool `json:"funding_utxos_have_own_keys,omitempty"`
+	// SameTx: the second funding UTXO is another output of the transaction that holds the ordinal
+	SameTx bool `json:"second_funding_utxo_shares_the_ordinals_txid,omitempty"`
 }
 
 var c20Keys = testPrivKeys(4)
@@ -68,6 +70,9 @@ func c20Check(c c20Case) (fs []rep.Finding) {
 			owner = c20PartyOf((c.Buyer + 1 + i) % len(c20Keys))
 		}
 		u := &bt.UTXO{TxID: txid32(byte(0x20 + i)), Vout: uint32(i), Satoshis: v, LockingScript: libScript(owner.lock), Unlocker: unlockerPtr(owner.priv)}
+		if c.SameTx && i == 1 {
+			u.TxID, u.Vout = append([]byte(nil), ordUTXO.TxID...), ordUTXO.Vout+4
+		}
 		funds = append(funds, u)
 		prevOuts[hex.EncodeToString(u.TxID)+fmt.Sprint(u.Vout)] = &bt.Output{Satoshis: v, LockingScript: libScript(owner.lock)}
 	}
@@ -143,7 +148,7 @@ func c20Check(c c20Case) (fs []rep.Finding) {
 			fs = append(fs, rep.F(flow+"|unknown-input", fmt.Sprintf("input %d spends an outpoint nobody supplied", i)))
 			continue
 		}
-		if bytes.Equal(in.TxID, ordUTXO.TxID) {
+		if bytes.Equal(in.TxID, ordUTXO.TxID) && in.Vout == ordUTXO.Vout {
 			ordIdx = i
 		}
 		if ordIdx < 0 {
@@ -211,12 +216,22 @@ type c20Insc struct {
 	Data   int  `json:"data_len"`
 	Enrich int  `json:"enrich"` // 0 none, 1 one part, 2 two parts
 	Spare  bool `json:"prefix_has_spare_capacity"`
+	Seed   int  `json:"first_byte,omitempty"` // first byte of the payload and of the content type (0: the default pattern)
 }
 
 func c20InscCheck(c c20Insc) (fs []rep.Finding) {
 	prefix := refP2PKH(fill(20, 0x42))
-	ct := string(bytes.Repeat([]byte("t"), c.CT))
+	ctb := bytes.Repeat([]byte("t"), c.CT)
 	data := fill(c.Data, 0x61)
+	if c.Seed != 0 {
+		if len(data) > 0 {
+			data[0] = byte(c.Seed)
+		}
+		if len(ctb) > 0 {
+			ctb[0] = byte(c.Seed)
+		}
+	}
+	ct := string(ctb)
 	pre := libScript(prefix)
 	if c.Spare {
 		b := make([]byte, 25, 4096)
@@ -289,7 +304,7 @@ func lenClass(n int) string {
 
 func init() {
 	p := register(&Prop{ID: "C20", Level: "exploration",
-		Rule: "exhaustive product: 4 flow pairs (list->accept, list->accept2Dummies, bid->accept, bid2Dummies->accept2Dummies) x seller/buyer keys (2x2 quick, 3x3 thorough) x funding UTXOs all locked to the buyer's key / each to a key of its own x prices {1,2,546,1000,1000000} x ordinal UTXO of 1 (and 2) satoshis, plain or inscription script x funding sets of 2..4 UTXOs whose values are placed around the thresholds (price, price+1, reference-fee boundary -2..+3, ample) with the UTXO exceeding the price at every position x 3 fee quotes; the partially signed tx crosses a serialisation boundary. Oracle for every completed transaction: each input accepted by Execute(WithTx, WithForkID, WithAfterGenesis) against its spent output; listing flows keep the seller's output byte-identical at the index of the seller's input; FIFO satoshi assignment puts the ordinal's first satoshi in the buyer's script; inputs-outputs >= reference fee of the actual size. Inscriptions: content-type lengths {0,1,75,76,255,256} x payload lengths {0,1,75,76,255,256,65535,65536} x enrichment {none,1,2 parts} x prefix with/without spare capacity, inscribed twice through Inscribe and once through InscribeSpecificOrdinal (ordinal 3 of the second input; the separating output must hold the satoshis in front of it): ParseInscription returns the same content type, data and 25-byte prefix. distinct_nontrivial = distinct completed transactions + inscription cases",
+		Rule: "exhaustive product: 4 flow pairs (list->accept, list->accept2Dummies, bid->accept, bid2Dummies->accept2Dummies) x seller/buyer keys (2x2 quick, 3x3 thorough) x funding UTXOs all locked to the buyer's key / each to a key of its own / the second one being another output of the ordinal's transaction x prices {1,2,546,1000,1000000} x ordinal UTXO of 1 (and 2) satoshis, plain or inscription script x funding sets of 2..4 UTXOs whose values are placed around the thresholds (price, price+1, reference-fee boundary -2..+3, ample) with the UTXO exceeding the price at every position x 3 fee quotes; the partially signed tx crosses a serialisation boundary. Oracle for every completed transaction: each input accepted by Execute(WithTx, WithForkID, WithAfterGenesis) against its spent output; listing flows keep the seller's output byte-identical at the index of the seller's input; FIFO satoshi assignment puts the ordinal's first satoshi in the buyer's script; inputs-outputs >= reference fee of the actual size. Inscriptions: content-type lengths {0,1,75,76,255,256} x payload lengths {0,1,75,76,255,256,65535,65536} x enrichment {none,1,2 parts} x prefix with/without spare capacity, plus one- and two-byte payloads and content types with every first byte value, inscribed twice through Inscribe and once through InscribeSpecificOrdinal (ordinal 3 of the second input; the separating output must hold the satoshis in front of it): ParseInscription returns the same content type, data and 25-byte prefix. distinct_nontrivial = distinct completed transactions + inscription cases",
 	})
 	sF := NewSpace(p, "flows", c20Check)
 	sI := NewSpace(p, "inscriptions", c20InscCheck)
@@ -331,6 +346,10 @@ func init() {
 											yield(c20Case{Flow: flow, Seller: s, Buyer: b, Price: price, OrdSats: ordSats, Funds: fs, Q: q, Insc: (s+b+int(ex))%2 == 0})
 											yield(c20Case{Flow: flow, Seller: s, Buyer: b, Price: price, OrdSats: ordSats, Funds: fs, Q: q, Insc: (s+b+int(ex))%2 == 0, OwnKeys: true})
 											completed += 2
+											if s+b == 0 || thorough {
+												yield(c20Case{Flow: flow, Seller: s, Buyer: b, Price: price, OrdSats: ordSats, Funds: fs, Q: q, Insc: (s+b+int(ex))%2 == 0, SameTx: true})
+												completed++
+											}
 										}
 									}
 								}
@@ -345,9 +364,13 @@ func init() {
 		for _, ct := range []int{0, 1, 75, 76, 255, 256} {
 			for _, dl := range []int{0, 1, 75, 76, 255, 256, 65535, 65536} {
 				for en := 0; en < 3; en++ {
-					ic = append(ic, c20Insc{ct, dl, en, false}, c20Insc{ct, dl, en, true})
+					ic = append(ic, c20Insc{CT: ct, Data: dl, Enrich: en}, c20Insc{CT: ct, Data: dl, Enrich: en, Spare: true})
 				}
 			}
+		}
+		// one- and two-byte payloads / content types with every first byte
+		for seed := 1; seed < 256; seed++ {
+			ic = append(ic, c20Insc{CT: 5, Data: 1, Seed: seed}, c20Insc{CT: 1, Data: 2, Seed: seed}, c20Insc{CT: 1, Data: 1, Enrich: 1, Seed: seed})
 		}
 		(&Space[c20Insc]{P: p, Name: sI.Name, Check: func(c c20Insc) []rep.Finding {
 			fs := c20InscCheck(c)
